@@ -16,7 +16,7 @@ ASSUMPTIONS = [
 ]
 SHARDS = E.SHARDS
 TIMEOUT = E.TIMEOUT
-MINIMUMS = {"quick": {"feature:cleaned": 40, "distinct_plan_trace": 2500, "launch_events": 4000, "feature:fail": 500}, "thorough": {"distinct_plan_trace": 80000, "launch_events": 120000, "feature:fail": 15000}}
+MINIMUMS = {"quick": {"feature:cleaned": 40, "distinct_plan_trace": 2500, "launch_events": 4000, "feature:fail": 500, "blocks_left_normally_with_failure": 1000, "blocks_left_normally_without_failure": 300}, "thorough": {"distinct_plan_trace": 80000, "launch_events": 120000, "feature:fail": 15000}}
 PROFILES = [PlanProfile(max_jobs=7, p_fail=0.35, p_edge=0.5), PlanProfile(max_jobs=5, p_fail=0.5, p_edge=0.6), PlanProfile(max_jobs=6, p_fail=0.3, tokens=1), PlanProfile(max_jobs=5, p_fail=0.3, multi_run=0.5), PlanProfile(max_jobs=5, p_fail=0.2, multi_run=1.0, p_abort=0.2, p_clean=0.9, p_edge=0.6)]
 worker = E.make_worker(PROPERTY, PROFILES, {"quick": 960, "thorough": 32000}, {"quick": 5, "thorough": 5}, nontrivial=lambda plan: len(plan["jobs"]) >= 2 and any(j["deps"] for j in plan["jobs"]) and any(j["codes"][0] != 0 for j in plan["jobs"]))
 replay = E.make_replay(PROPERTY)
